@@ -215,6 +215,10 @@ func (opt *Option) DeepCopy() Option {
 	for _, assignment := range opt.Assignments {
 		clone.Assignments = append(clone.Assignments, assignment.DeepCopy())
 	}
+	if opt.Default != nil {
+		optDefault := opt.Default.DeepCopy()
+		clone.Default = &optDefault
+	}
 
 	return clone
 }
@@ -225,6 +229,18 @@ func (opt *Option) AddToVeneerTrail(veneerName string) {
 
 type OptionDefault struct {
 	ArgsValues []any
+}
+
+func (optDefault *OptionDefault) DeepCopy() OptionDefault {
+	clone := OptionDefault{
+		ArgsValues: make([]any, 0, len(optDefault.ArgsValues)),
+	}
+
+	for _, value := range optDefault.ArgsValues {
+		clone.ArgsValues = append(clone.ArgsValues, deepCopyValue(value))
+	}
+
+	return clone
 }
 
 type Argument struct {
